@@ -19,8 +19,8 @@ import (
 
 type cliSpec struct {
 	run, toString, ctor, opts string
-	analyses                 []string // library entry methods whose first result is rendered
-	pathGlobals              map[string][]string
+	analyses                  []string // library entry methods whose first result is rendered
+	pathGlobals               map[string][]string
 }
 
 var cliSpecs = []cliSpec{
